@@ -208,7 +208,7 @@ where
     S::Error: AsRef<dyn std::error::Error + Send + Sync> + 'static,
 {
     take_leaf_log();
-    let mut rng = TraceRng::new(seed);
+    let mut rng = TraceRng::stream(seed);
     let r = s.select(pop, &mut rng);
     let value = match r {
         Ok(x) => Ok(match pop.iter().position(|p| std::ptr::eq(p, x)) {
@@ -227,7 +227,7 @@ where
     S::Error: std::error::Error + 'static,
 {
     take_leaf_log();
-    let mut rng = TraceRng::new(seed);
+    let mut rng = TraceRng::stream(seed);
     let r = s.select(pop, &mut rng);
     let value = match r {
         Ok(x) => Ok(match pop.iter().position(|p| std::ptr::eq(p, x)) {
@@ -274,51 +274,51 @@ impl AsRef<dyn std::error::Error + Send + Sync> for Boxed {
 
 fn obs_mut_boxed<M: Mutator<G, Error = BoxErr>>(m: &M, g: &G, seed: u64) -> Obs {
     take_calls();
-    let mut rng = TraceRng::new(seed);
+    let mut rng = TraceRng::stream(seed);
     let r = m.mutate(g.clone(), &mut rng).map_err(Boxed);
     finish::<_, dyn std::error::Error + Send + Sync>(r, &rng)
 }
 fn obs_mut_concrete<M: Mutator<G, Error = KindErr>>(m: &M, g: &G, seed: u64) -> Obs {
     take_calls();
-    let mut rng = TraceRng::new(seed);
+    let mut rng = TraceRng::stream(seed);
     let r = m.mutate(g.clone(), &mut rng).map_err(Own);
     finish::<_, KindErr>(r, &rng)
 }
 fn obs_rec_boxed<M: Recombinator<[G; 2], Output = G, Error = BoxErr>>(m: &M, g: &[G; 2], seed: u64) -> Obs {
     take_calls();
-    let mut rng = TraceRng::new(seed);
+    let mut rng = TraceRng::stream(seed);
     let r = m.recombine(g.clone(), &mut rng).map_err(Boxed);
     finish::<_, dyn std::error::Error + Send + Sync>(r, &rng)
 }
 fn obs_rec_concrete<M: Recombinator<[G; 2], Output = G, Error = KindErr>>(m: &M, g: &[G; 2], seed: u64) -> Obs {
     take_calls();
-    let mut rng = TraceRng::new(seed);
+    let mut rng = TraceRng::stream(seed);
     let r = m.recombine(g.clone(), &mut rng).map_err(Own);
     finish::<_, KindErr>(r, &rng)
 }
 fn obs_op_boxed<M: Operator<G, Output = G, Error = BoxErr>>(m: &M, g: &G, seed: u64) -> Obs {
     take_calls();
-    let mut rng = TraceRng::new(seed);
+    let mut rng = TraceRng::stream(seed);
     let r = m.apply(g.clone(), &mut rng).map_err(Boxed);
     finish::<_, dyn std::error::Error + Send + Sync>(r, &rng)
 }
 fn obs_op_concrete<M: Operator<G, Output = G, Error = KindErr>>(m: &M, g: &G, seed: u64) -> Obs {
     take_calls();
-    let mut rng = TraceRng::new(seed);
+    let mut rng = TraceRng::stream(seed);
     let r = m.apply(g.clone(), &mut rng).map_err(Own);
     finish::<_, KindErr>(r, &rng)
 }
 fn obs_cm_boxed<M: ChildMaker<Pop, Leaf, Error = BoxErr>>(m: &M, pop: &Pop, sel: &Leaf, seed: u64) -> Obs {
     take_calls();
     take_leaf_log();
-    let mut rng = TraceRng::new(seed);
+    let mut rng = TraceRng::stream(seed);
     let r = m.make_child(&mut rng, pop, sel).map_err(Boxed);
     finish::<_, dyn std::error::Error + Send + Sync>(r, &rng)
 }
 fn obs_cm_concrete<M: ChildMaker<Pop, Leaf, Error = KindErr>>(m: &M, pop: &Pop, sel: &Leaf, seed: u64) -> Obs {
     take_calls();
     take_leaf_log();
-    let mut rng = TraceRng::new(seed);
+    let mut rng = TraceRng::stream(seed);
     let r = m.make_child(&mut rng, pop, sel).map_err(Own);
     finish::<_, KindErr>(r, &rng)
 }
